@@ -218,9 +218,13 @@ impl fmt::Display for ESpec {
                     (Some(l), Some(v), None) => write!(f, ":{{{l},{v}}}"),
                     (Some(l), None, Some(wb)) => write!(f, ":{{{l},{wb}}}"),
                     (Some(l), Some(v), Some(wb)) => write!(f, ":{{{l},{v},{wb}}}"),
-                    (None, Some(v), None) => write!(f, ":{{{v}}}"),
-                    (None, Some(v), Some(wb)) => write!(f, ":{{{v},{wb}}}"),
-                    (None, None, Some(wb)) => write!(f, ":{{{wb}}}"),
+                    // Without a level the level slot stays empty: the parser
+                    // reads the first braced parameter as the level, so
+                    // `z:{mpq}` / `z:{15}` would not parse back (or would
+                    // parse back as a level) - `z:{,mpq}` / `z:{,15}` do.
+                    (None, Some(v), None) => write!(f, ":{{,{v}}}"),
+                    (None, Some(v), Some(wb)) => write!(f, ":{{,{v},{wb}}}"),
+                    (None, None, Some(wb)) => write!(f, ":{{,{wb}}}"),
                 }
             }
 
